@@ -71,6 +71,7 @@ Lemma flatten_us o a b en :
           if o =? 1 then Ok (ONorm (MV (VI (p + q))) en2)
           else if o =? 2 then (if negb (q <=? p) then Ok OPanic else Ok (ONorm (MV (VI (p - q))) en2))
           else if o =? 3 then (if q =? 0 then Ok OPanic else Ok (ONorm (MV (VI (p mod q))) en2))
+          else if o =? 4 then Ok (ONorm (MV (VI (p - q))) en2)
           else Ok OType
       | _, _ => Ok OType
       end)).
@@ -79,7 +80,7 @@ Proof.
   rewrite flatten_tbind. destruct (flatten (eval c b en1)) as [[y en2| | | |]|]; try reflexivity.
   destruct x as [[]| | | | | | | | | | | | |]; try reflexivity. destruct y as [[]| | | | | | | | | | | | |]; try reflexivity.
   destruct (o =? 1); [reflexivity|]. destruct (o =? 2); [destruct (negb (i0 <=? i)); reflexivity|].
-  destruct (o =? 3); [destruct (i0 =? 0); reflexivity|reflexivity].
+  destruct (o =? 3); [destruct (i0 =? 0); reflexivity|]. destruct (o =? 4); reflexivity.
 Qed.
 Lemma flatten_cmp o a b en :
   flatten (eval c (ECmp o a b) en)
